@@ -22,3 +22,4 @@ package main
 //@   site filepathext.SmartJoin#2 requires arg0 == initWd                                                       [C19]
 //@   site InitTaskfile#1 requires len(posArgs) == 0 ==> arg0 == initWd                                          [C19]
 //@   site (*Vars).Set#1 requires arg1 == "CLI_ARGS" && dyn(arg2.Value) == type(string)   -- one string, not a list  [C19]
+//@   site (*Vars).Set#1 requires arg2.Live == arg2.Value      -- and marked as a final value: it is data, not a template  [C19]
